@@ -1,7 +1,8 @@
 """Stream `scriptxml`: the fully refined edit script of the REAL engine for a pair of XML / HTML element trees
 (`graphtage.xml.build_tree`, the builder behind both the XML and the HTML file type), compared EXACTLY with the
 Lean model `GtModel.Xml.xmlEdits` (Model/XmlEdits.lean, layer L2x on top of L2), plus independent monitors for
-C01 (accounting), C02 (zero cost iff equal) and C03 (cost = sum of parts, three views).
+C01 (accounting), C02 (zero cost iff equal), C03 (cost = sum of parts, three views) and C10 (the dictionary strategy
+reaches the attribute mappings; with list edits disabled the children of every element are paired by position).
 
 Kinds of cases
   xml    {"f": doc, "t": doc, "opts": {...}, "via": None | "xml" | "html"}
@@ -23,7 +24,13 @@ from harness.streams import script as S
 
 NAME = "scriptxml"
 
-OPT_SETS = S.OPT_SETS
+# the six option sets of stream `script` (default, -k, match, -l, -ll, -k -l) plus -l -ll and -k -ll: eight
+OPT_SETS = S.OPT_SETS + [
+    {"allow_list_edits": False, "allow_list_edits_when_same_length": False},
+    {"allow_key_edits": False, "auto_match_keys": False, "allow_list_edits_when_same_length": False},
+]
+LIST_OFF = [o for o in OPT_SETS if not o.get("allow_list_edits", True) or not o.get("allow_list_edits_when_same_length", True)]
+VIAS = [None, "xml", "html"]
 
 TAGS = ["a", "b", "item", "row", "x", "ab"]
 TEXTS = [None, None, "", "t", "text", "hello", " hello ", "hellp", "hello\n", "\n  ", " ", "1", "2", " t", "t ",
@@ -82,9 +89,11 @@ def mut_xml(r, x, d=0, weird=False):
         y["children"].pop(r.randrange(len(y["children"])))
     elif k < 0.84 and d < 3:
         y["children"].insert(r.randint(0, len(y["children"])), gen_xml(r, d + 1, 3, weird))
-    elif k < 0.88 and len(y["children"]) >= 2:
+    elif k < 0.90 and len(y["children"]) >= 2:
         i, j = r.sample(range(len(y["children"])), 2)
         y["children"][i], y["children"][j] = y["children"][j], y["children"][i]
+    elif k < 0.93 and len(y["children"]) >= 2:
+        y["children"] = y["children"][1:] + y["children"][:1]      # same length, every child shifted
     return y
 
 
@@ -114,15 +123,32 @@ FORCED = [
      el("r", {}, None, [el("i", {"id": "1"}, "a"), el("i", {"id": "3"}, "c")])),
     (el("r", {}, "t", [el("i", {"id": "1", "n": "x"}, None, [el("j", {"k": "1"}), el("j", {"k": "2"})])]),
      el("r", {}, None, [el("i", {"id": "1", "m": "x"}, None, [el("j", {"k": "2"}), el("j", {"kk": "1"})]), el("i")])),
+    # the list options: same number of children shifted / swapped (default, -l and -ll give different scripts), a
+    # surplus tail, and the same one level down
+    (el("r", {}, None, [el("a"), el("b"), el("c")]), el("r", {}, None, [el("b"), el("c"), el("a")])),
+    (el("r", {}, None, [el("a"), el("b"), el("c")]), el("r", {}, None, [el("b"), el("c")])),
+    (el("r", {}, None, [el("b"), el("c")]), el("r", {}, None, [el("a"), el("b"), el("c")])),
+    (el("r", {}, None, [el("i", {"id": "1"}, "a"), el("i", {"id": "2"}, "b"), el("i", {"id": "3"}, "c")]),
+     el("r", {}, None, [el("i", {"id": "0"}, "z"), el("i", {"id": "1"}, "a"), el("i", {"id": "2"}, "b")])),
+    (el("r", {}, None, [el("g", {}, None, [el("a"), el("b"), el("c")]), el("h")]),
+     el("r", {}, None, [el("g", {}, None, [el("c"), el("a"), el("b")]), el("h", {}, "x")])),
+    (el("r", {}, None, [el("g", {}, None, [el("a"), el("b"), el("c")]), el("h")]),
+     el("r", {}, None, [el("h"), el("g", {}, None, [el("b"), el("c")]), el("x")])),
 ]
 
 
 def gen(rng, tier):
     n = 120 if tier == "quick" else 2500
     cases = []
-    for f, t in FORCED:
-        for o in OPT_SETS:
-            cases.append({"kind": "xml", "f": f, "t": t, "opts": o})
+    for p, (f, t) in enumerate(FORCED):
+        for j, o in enumerate(OPT_SETS):
+            # every forced pair under all eight option sets; the path (direct ElementTree elements / the registered
+            # XML file type / the registered HTML file type) rotates with the pair, so every (option set, path)
+            # combination occurs on a third of the pairs
+            c = {"kind": "xml", "f": f, "t": t, "opts": o}
+            if VIAS[(p + j) % 3]:
+                c["via"] = VIAS[(p + j) % 3]
+            cases.append(c)
     for i in range(n):
         weird = rng.random() < 0.15
         maxd = rng.choice([1, 2, 2, 3])
@@ -131,8 +157,9 @@ def gen(rng, tier):
         for _ in range(3):          # few equal pairs here (they have their own generator below); several edits per pair
             if xml_eq(a, b) or rng.random() < 0.35:
                 b = mut_xml(rng, b, 0, weird)
-        c = {"kind": "xml", "f": a, "t": b, "opts": rng.choice(OPT_SETS)}
-        if not weird and rng.random() < 0.3:
+        # half of the pairs run with one of the list options off
+        c = {"kind": "xml", "f": a, "t": b, "opts": rng.choice(LIST_OFF) if rng.random() < 0.4 else rng.choice(OPT_SETS)}
+        if not weird and rng.random() < 0.4:
             c["via"] = rng.choice(["xml", "html"])
         cases.append(c)
     for _ in range(n // 6):     # equal up to attribute order and surrounding white space
@@ -239,6 +266,12 @@ def dump(e, top=True):
     return ["other:" + type(e).__name__, fi, ti, S._ub(e), []]
 
 
+def _elements(e):
+    yield e
+    for c in e._children:
+        yield from _elements(c)
+
+
 def impl(case):
     if case["kind"] == "space":
         return {"spaces": [c for c in range(case["lo"], case["hi"]) if chr(c).isspace()],
@@ -276,7 +309,10 @@ def impl(case):
     obs = {"script": script, "oracle": oracle, "root": root, "edited_cost": edited, "flat_sum": flat,
            "eq": bool(A4 == B4), "eq_rev": bool(B4 == A4), "sizes": [int(A.total_size), int(B.total_size)],
            "classes": [type(A.attrib).__name__, type(A._children).__name__,
-                       bool(A._children.allow_list_edits), bool(A._children.allow_list_edits_when_same_length)]}
+                       bool(A._children.allow_list_edits), bool(A._children.allow_list_edits_when_same_length)],
+           # the list flags of EVERY element's child list, both trees, as a set
+           "list_flags": sorted({(bool(n._children.allow_list_edits), bool(n._children.allow_list_edits_when_same_length))
+                                 for T in (A, B) for n in _elements(T)})}
     if docs is not None:
         obs["docs"] = docs
     return obs
@@ -428,6 +464,17 @@ def _walk(node, f, t, opts, hits, path=""):
         hits.append(("C03", "reported-ne-sum:" + ce[0] + ":xml", f"{ce[0]} edit over the children at {path or '/'} reports {ce[3]}, sub-edits sum to {sum(s[3] for s in ce[4] if isinstance(s[3], int))}"))
     if not _seq_accounts(ce[0], ce[4], len(fl), len(tl), path, hits):
         return
+    # ---- C10: list edits disabled (always, or for equally many children): the children are paired strictly by
+    # position and only a surplus tail is removed or inserted
+    ale = opts.get("allow_list_edits", True)
+    alesl = opts.get("allow_list_edits_when_same_length", True)
+    if (not ale) or (len(fl) == len(tl) and not alesl):
+        n = min(len(fl), len(tl))
+        want = [("pair", i, i) for i in range(n)] + [("remove", i, None) for i in range(n, len(fl))] \
+            + [("insert", i, None) for i in range(n, len(tl))]
+        got = [(s[0] if s[0] in ("remove", "insert") else "pair", s[1], s[2]) for s in ce[4]]
+        if got != want:
+            hits.append(("C10", "list-edits-off-not-positional:xml", f"list edits disabled ({'always' if not ale else 'for equal lengths'}) but the {ce[0]} edit over the {len(fl)} / {len(tl)} children at {path or '/'} is not positional: {got}"))
     for s in ce[4]:
         if s[0] in ("remove", "insert"):
             continue
@@ -438,11 +485,11 @@ def _walk(node, f, t, opts, hits, path=""):
 
 def monitor(case, obs):
     if not isinstance(obs, dict):
-        return [{"prop": p, "key": "bad-observation", "what": repr(obs)[:200]} for p in ("C01", "C02", "C03")]
+        return [{"prop": p, "key": "bad-observation", "what": repr(obs)[:200]} for p in ("C01", "C02", "C03", "C10")]
     if obs.get("error"):
         what = f"{obs.get('exc', obs['error'])}: {obs.get('msg', '')}"
         key = "internal-error:" + str(obs.get("exc", obs["error"]))
-        return [{"prop": p, "key": key, "what": what} for p in ("C01", "C02", "C03", "C04", "C05")]
+        return [{"prop": p, "key": key, "what": what} for p in ("C01", "C02", "C03", "C04", "C05", "C10")]
     if case["kind"] == "space":
         if not obs.get("strip_is_isspace"):
             return [{"prop": "C02", "key": "strip-vs-isspace", "what": "str.strip() and str.isspace() disagree on a code point"}]
@@ -466,7 +513,7 @@ def monitor(case, obs):
             raw.append(("C02", "differ-but-zero-annotated:xml", "elements differ but edited_cost() is 0"))
         if de != obs["eq"] or obs["eq"] != obs["eq_rev"]:
             raw.append(("C02", "node-eq-vs-data-eq:xml", f"tree equality is {obs['eq']} / reversed {obs['eq_rev']} but the elements are {'equal' if de else 'different'}"))
-    # C10: the dictionary strategy reaches the attribute mappings, the list options never reach the children
+    # C10: the dictionary strategy reaches the attribute mappings (the list options: behavioural check in `_walk`)
     cl = obs.get("classes")
     if cl:
         want = "DictNode" if opts.get("allow_key_edits", True) else "FixedKeyDictNode"
